@@ -136,6 +136,14 @@ func monitor(rc *runCtx, res *ScenResult, srvLocked, srvWait int, reread func() 
 				continue
 			}
 			si.terminal = i
+			if lat := r.T - si.t; lat > 0 {
+				if lat/1000000 > res.MaxLatencyMs {
+					res.MaxLatencyMs = lat / 1000000
+				}
+				if lat > int64(rc.patience) && rc.patience > 0 {
+					res.LateReplies++
+				}
+			}
 			if f.Result == protocol.RESULT_SUCCED {
 				if si.cmd.CommandType == protocol.COMMAND_LOCK {
 					if si.cmd.Expried > 0 {
